@@ -30,7 +30,7 @@ class ModularMixin:
                     ('%s@%s:%s' % (cl.label, fi.name, getattr(node, 'lineno', '?')), goal, cl.expr, cl.props or C.props))
             self.old_heap = self.heap.snapshot()
             self.old_locals = dict(frame.locals)
-            self.old_ghost = {'g_enc': self.g_enc, 'g_dec': self.g_dec, 'g_nframes': self.g_nframes, 'g_ngoaway': self.g_ngoaway}
+            self.old_ghost = {'g_enc': self.g_enc, 'g_dec': self.g_dec, 'g_nframes': self.g_nframes, 'g_ngoaway': self.g_ngoaway, 'g_nencode': self.g_nencode}
             for target in (C.modifies or []):
                 if callable(target):
                     target(self, frame.locals)      # functional summary (a restatement of proved ensures clauses)
